@@ -1,7 +1,9 @@
 //! C10 — curve operations are consistent with evaluation.
 //!
 //! Families (each at f32 and f64): `seg`, `quad`, `cubic`, `arc`.
-//! IMPL prints every modelled operation (inherent methods and the `Segment` trait glue);
+//! IMPL prints every modelled operation (inherent methods and the `Segment` trait glue), including
+//! the lengths (`LineSegment::length`, `QuadraticBezierSegment::length`,
+//! `CubicBezierSegment::approximate_length`, `Arc::approximate_length`, `Segment::approximate_length`);
 //! ORCL evaluates the identities of the property on lyon's own results against an
 //! independent de Casteljau reference in f64, with a forward-error envelope.
 
@@ -43,6 +45,14 @@ fn gen_params<S: Fl>(g: Gen, rng: &mut Rng, args: &mut Out) -> Params<S> {
         args.f(*x);
     }
     Params { t, u, a, b, xf }
+}
+
+/// tolerance handed to `approximate_length` (relative to the input's magnitude so that the number
+/// of pieces stays small); appended to the CASE args for the model
+fn len_tol<S: Fl>(m: f64, args: &mut Out) -> S {
+    let tolr = S::of((m * 1e-3).max(1e-3));
+    args.f(tolr);
+    tolr
 }
 
 fn lerp64(a: (f64, f64), b: (f64, f64), t: f64) -> (f64, f64) {
@@ -182,6 +192,7 @@ fn seg_case<S: Fl>(ctx: &mut Ctx) {
         let mut args = Out::new();
         put_ctrl(&mut args, &s);
         let p = gen_params::<S>(g, rng, &mut args);
+        let tolr: S = len_tol(maxabs(&s.ctrl()).max(1e-30), &mut args);
         let tag = format!("seg {} {}", S::BITS, g.name());
         (args, tag, move || {
             let mut o = Out::new();
@@ -205,6 +216,7 @@ fn seg_case<S: Fl>(ctx: &mut Ctx) {
             o.t("vec").v(s.to_vector());
             o.t("solve").f(s.solve_t_for_x(p.u)).f(s.solve_t_for_y(p.u));
             put_trait(&mut o, &s, &p);
+            o.t("tr_len").f(Segment::approximate_length(&s, tolr));
 
             let mut orc = Oracle::new();
             bezier_oracle(&s, &p, &mut orc);
@@ -236,6 +248,7 @@ fn quad_case<S: Fl>(ctx: &mut Ctx) {
         let mut args = Out::new();
         put_ctrl(&mut args, &s);
         let p = gen_params::<S>(g, rng, &mut args);
+        let tolr: S = len_tol(maxabs(&s.ctrl()).max(1e-30), &mut args);
         let tag = format!("quad {} {}", S::BITS, g.name());
         (args, tag, move || {
             let mut o = Out::new();
@@ -261,6 +274,9 @@ fn quad_case<S: Fl>(ctx: &mut Ctx) {
             o.t("base");
             put_ctrl(&mut o, &s.baseline());
             put_trait(&mut o, &s, &p);
+            // lengths: the whole, the two pieces of `split(t)`, the trait glue
+            o.t("len").f(s.length()).f(l.length()).f(r.length());
+            o.t("tr_len").f(Segment::approximate_length(&s, tolr));
 
             let mut orc = Oracle::new();
             bezier_oracle(&s, &p, &mut orc);
@@ -324,6 +340,7 @@ fn cubic_case<S: Fl>(ctx: &mut Ctx) {
         let mut args = Out::new();
         put_ctrl(&mut args, &s);
         let p = gen_params::<S>(g, rng, &mut args);
+        let tolr: S = len_tol(maxabs(&s.ctrl()).max(1e-30), &mut args);
         let tag = format!("cubic {} {}", S::BITS, g.name());
         (args, tag, move || {
             let mut o = Out::new();
@@ -349,6 +366,9 @@ fn cubic_case<S: Fl>(ctx: &mut Ctx) {
             o.t("base");
             put_ctrl(&mut o, &s.baseline());
             put_trait(&mut o, &s, &p);
+            // approximate lengths: number of quadratics, the whole, the two pieces of `split(t)`, the trait glue
+            o.t("alen").u(s.num_quadratics(tolr) as u64).f(s.approximate_length(tolr)).f(l.approximate_length(tolr)).f(r.approximate_length(tolr));
+            o.t("tr_len").f(Segment::approximate_length(&s, tolr));
 
             let mut orc = Oracle::new();
             bezier_oracle(&s, &p, &mut orc);
@@ -433,6 +453,7 @@ fn arc_case<S: Fl>(ctx: &mut Ctx) {
         let mut args = Out::new();
         put_arc(&mut args, &a);
         let p = gen_params::<S>(g, rng, &mut args);
+        let tolr: S = len_tol(a.radii.x.f().max(a.radii.y.f()), &mut args);
         let tag = format!("arc {} {}", S::BITS, g.name());
         (args, tag, move || {
             let mut o = Out::new();
@@ -460,6 +481,9 @@ fn arc_case<S: Fl>(ctx: &mut Ctx) {
             put_arc(&mut o, &Segment::after_split(&a, p.t));
             put_arc(&mut o, &Segment::split_range(&a, p.a..p.b));
             put_arc(&mut o, &Segment::flip(&a));
+            // approximate length (sum over the flattening), inherent and through the trait
+            o.t("alen").f(a.approximate_length(tolr));
+            o.t("tr_len").f(Segment::approximate_length(&a, tolr));
 
             let mut orc = Oracle::new();
             let (t, u, ra, rb) = (p.t.f(), p.u.f(), p.a.f(), p.b.f());
